@@ -128,6 +128,15 @@ impl Subject for WTinySubj {
         tiny_snapshot(&t.verif_state(), &mut out);
         out
     }
+    fn weak_audit(&self, limit: usize) -> Ints {
+        let (_, w, m) = self.c.verif_parts();
+        let (prob, prot) = m.verif_parts();
+        let mut out = vec![];
+        weak_audit_list(w, limit, &mut out);
+        weak_audit_list(prob, limit, &mut out);
+        weak_audit_list(prot, limit, &mut out);
+        out
+    }
     fn cfg_override(&self) -> Option<Ints> {
         let (t, w, m) = self.c.verif_parts();
         let (prob, prot) = m.verif_parts();
